@@ -187,3 +187,6 @@ Lemma ia_example :
                  EvCommit 1; EvCommit 0; EvIndex 0] = Some st' /\
               ia_done st' = true /\ predecessors (ia_g st') 1%N = [2; 3]%N.
 Proof. eexists. vm_compute. repeat split. Qed.
+
+Lemma indexall_task_order_true : indexall_task_order = true.
+Proof. vm_compute. reflexivity. Qed.
